@@ -451,24 +451,25 @@ Fixpoint p_extend_cols (n : nat) (fuel : nat) (ts : list token) : option (list e
       end
   end.
 
-(** first loop of [summarizeOperator]: returns the columns, the remaining tokens, the errors
-    and whether the operator returns at once ([true]) or goes on to look for `by`. *)
-Fixpoint p_summarize_cols (n : nat) (fuel : nat) (ts : list token)
-  : option (list ext_col) * list token * errs * bool :=
+(** first loop of [summarizeOperator]: returns the columns, the remaining tokens, the errors,
+    whether the operator returns at once ([true]) or goes on to look for `by`, and whether
+    the last thing read was a comma (then only `by` may follow). *)
+Fixpoint p_summarize_cols (n : nat) (fuel : nat) (after_comma : bool) (ts : list token)
+  : option (list ext_col) * list token * errs * bool * bool :=
   match n with
-  | O => (None, ts, fuel_err, true)
+  | O => (None, ts, fuel_err, true, false)
   | S n' =>
     let '(c, r1, e1) := p_ext_col fuel ts in
-    if is_nf e1 then (Some [], ts, [], false)
-    else if negb (no_err e1) then (None, r1, opaque e1, true)
+    if is_nf e1 then (Some [], ts, [], false, after_comma)
+    else if negb (no_err e1) then (None, r1, opaque e1, true, false)
     else
       match r1 with
-      | [] => (option_map (fun c => [c]) c, [], [], true)
+      | [] => (option_map (fun c => [c]) c, [], [], true, false)
       | sep :: r2 =>
         if is_kind KComma sep then
-          let '(tl, r3, e3, fin) := p_summarize_cols n' fuel r2 in
-          (when_ok e3 (opt_map2 cons c tl), r3, e3, fin)
-        else (option_map (fun c => [c]) c, r1, [], false)
+          let '(tl, r3, e3, fin, tc) := p_summarize_cols n' fuel true r2 in
+          (when_ok e3 (opt_map2 cons c tl), r3, e3, fin, tc)
+        else (option_map (fun c => [c]) c, r1, [], false, false)
       end
   end.
 
@@ -609,19 +610,20 @@ with p_operator (fuel : nat) (pipe : span) (name : token) (ts : list token)
       let '(cols, r, e) := p_extend_cols n f ts in
       (when_ok e (option_map (OExtend pipe kw) cols), r, e, true)
     else if str_eqb w w_summarize then
-      let '(cols, r, e, fin) := p_summarize_cols n f ts in
+      let '(cols, r, e, fin, tc) := p_summarize_cols n f false ts in
       if fin then (when_ok e (option_map (fun c => OSummarize pipe kw c None []) cols), r, e, true)
       else
         let ncols := match cols with Some c => length c | None => 1%nat end in
+        let need_by := Nat.eqb ncols 0 || tc in
         match r with
         | b :: r1 =>
           if is_kind KBy b then
             let '(gs, r2, e2) := p_group_cols n f r1 in
             (when_ok e2 (opt_map2 (fun c g => OSummarize pipe kw c (tok_span b) g) cols gs), r2, e2, true)
-          else if Nat.eqb ncols 0 then (None, r, err_at (tstart b), true)
+          else if need_by then (None, r, err_at (tstart b), true)
           else (option_map (fun c => OSummarize pipe kw c None []) cols, r, [], true)
         | [] =>
-          if Nat.eqb ncols 0 then (None, [], err_at srclen, true)
+          if need_by then (None, [], err_at srclen, true)
           else (option_map (fun c => OSummarize pipe kw c None []) cols, [], [], true)
         end
     else if str_eqb w w_join then
